@@ -9,10 +9,10 @@ func init() {
 			{Name: "TestProbes"},
 			{Name: "TestRegressions"},
 			{Name: "TestPermutationsExhaustive"},
-			{Name: "TestDupIndependent", Rapid: true, Quick: 4000, Thorough: 60000, QuickShards: 2, ThoroughShards: 8},
-			{Name: "TestHashMatchesEquality", Rapid: true, Quick: 3500, Thorough: 40000, QuickShards: 2, ThoroughShards: 8},
-			{Name: "TestPermutationInvariance", Rapid: true, Quick: 1500, Thorough: 20000, QuickShards: 2, ThoroughShards: 8},
-			{Name: "TestRepeatStable", Rapid: true, Quick: 2000, Thorough: 25000, QuickShards: 2, ThoroughShards: 4},
+			{Name: "TestDupIndependent", Rapid: true, Quick: 10000, Thorough: 60000, QuickShards: 2, ThoroughShards: 8},
+			{Name: "TestHashMatchesEquality", Rapid: true, Quick: 8000, Thorough: 40000, QuickShards: 2, ThoroughShards: 8},
+			{Name: "TestPermutationInvariance", Rapid: true, Quick: 4000, Thorough: 20000, QuickShards: 2, ThoroughShards: 8},
+			{Name: "TestRepeatStable", Rapid: true, Quick: 5000, Thorough: 25000, QuickShards: 2, ThoroughShards: 4},
 		},
 		Rule:      "case = one generated type graph (model: primitives, arrays, maps, objects, unions, user types, result types with views, references by index so that graphs may be self- and mutually recursive; nesting up to 5; validations, default values, examples, docs, references/bases and metadata incl. several struct:field:* and struct:tag:* keys) together with the derived copies / permuted rebuilds / edited variants / independent graphs it is compared with. Non-trivial = the graph has a cycle, or an object with >= 2 attributes, or a union, or an attribute with >= 2 tag metas. Distinct = SHA-256 of the JSON of the model.",
 		LevelText: "Generated-input search over type graphs built the way the DSL builds them. Copies (Dup, DupAtt) are compared with the original by an own deep serialiser, an own bisimulation-style structural equality and expr.Equal; independence is checked by pointer disjointness of all mutable structure and by mutating the copy through the ordinary mutators (Object.Set/Delete/Rename, AddMeta, AddRequired/RemoveRequired/Merge, Rename, SetAttribute, field assignment) and re-serialising the original. Hash is compared, for all 8 flag combinations and in both directions, with a reference equality written from Hash's documentation, on permuted rebuilds, edited variants, mutated copies and independent graphs; every declaration order of <= 4 attributes/alternatives is enumerated (exhaustive sub-space); repeated Hash/Dup calls (up to 200 when several metadata keys are present) must agree. Exploration, not proof.",
